@@ -209,9 +209,7 @@ class Interp:
 
     def emit(self, st: State, kind, name, node, recv=None, args=(), kwargs=None, extra=None, with_facts=False):
         func, line = self.where(st, node)
-        st.emit(
-            Event(kind, name, recv, args, kwargs, func, line, st.stack, st.facts if with_facts else None, extra)
-        )
+        st.emit(Event(kind, name, recv, args, kwargs, func, line, st.stack, st.facts, extra))
 
     def tick(self):
         self.steps += 1
@@ -395,6 +393,8 @@ class Interp:
     def raise_(self, st: State, cls, node, what="") -> Outcome:
         func, line = self.where(st, node)
         exc = ExcV(cls, f"{func}:{line}", what or unparse(node)[:80], st.stack)
+        exc.expr = " ".join(unparse(node).split())[:100] if isinstance(node, ast.AST) else ""
+        exc.func = func
         return ("raise", st, exc)
 
     # ----------------------------------------------------------------- running
@@ -1038,7 +1038,45 @@ class Interp:
                 return Const(fn(a.value, b.value))
             except (KeyError, TypeError):
                 pass
+        floor = self.version_floor_compare(op, a, b)
+        if floor is not None:
+            return Const(floor)
         return BoolV(("cmp", type(op).__name__, a.key(), b.key()))
+
+    def version_floor_compare(self, op, a: V, b: V) -> Optional[bool]:
+        """AwesomeVersion(gateway.protocol_version) <op> AwesomeVersion("<table version>").
+
+        A-FLOOR: the gateway's const module is the highest table version not above its
+        protocol version (get_const), so the comparison with a table version is decided by
+        the context's table version.
+        """
+        def arg(v):
+            if isinstance(v, ExtObj) and v.cls == "awesomeversion.AwesomeVersion" and v.args:
+                return v.args[0]
+            return None
+
+        x, y = arg(a), arg(b)
+        if x is None or y is None:
+            return None
+        gwpv = ("attr", ("root", "GW"), "protocol_version")
+        import operator
+
+        ops = {ast.Lt: operator.lt, ast.LtE: operator.le, ast.Gt: operator.gt, ast.GtE: operator.ge}
+        if type(op) not in ops:
+            return None
+
+        def ver(s):
+            try:
+                return tuple(int(p) for p in s.split("."))
+            except ValueError:
+                return None
+
+        tables = set(self.refl["const_versions"].keys())
+        if x.key() == gwpv and isinstance(y, Const) and y.value in tables:
+            return ops[type(op)](ver(self.ctx.version), ver(y.value))
+        if y.key() == gwpv and isinstance(x, Const) and x.value in tables:
+            return ops[type(op)](ver(x.value), ver(self.ctx.version))
+        return None
 
     def enum_eq(self, a: EnumMemV, b: EnumMemV) -> bool:
         return self.enum_value(a.enum, a.version, a.names[0]) == self.enum_value(b.enum, b.version, b.names[0])
@@ -1144,10 +1182,13 @@ class Interp:
             else:
                 base.closed = False
             return [("next", st, None)]
+        outs: List[Outcome] = []
+        if self.ext.type_tag(self, base) == "list" and not self.ext._index_guarded(self, st, base, key):
+            outs.append(self.raise_(st.copy(), IndexError, node, f"{unparse(node)[:50]}: index not known to be in range"))
         st.mem[(base.key(), "i", key.key())] = val
         st.add_fact(("in", key.key(), base.key()), ("truthy", base.key()))
         st.drop_facts(lambda f: f[0] == "notin" and f[1] == key.key() and f[2] == base.key() or f == ("falsy", base.key()))
-        return [("next", st, None)]
+        return outs + [("next", st, None)]
 
     def ev_Call(self, node: ast.Call, st):
         # super().method(...)
